@@ -21,6 +21,8 @@ pub fn run(ctx: &Ctx) {
     api::run(ctx);
     let total = std::thread::available_parallelism().map(|n| n.get()).unwrap_or(1) as u32;
     let opts = cli::CliOpts { thorough: !ctx.is_quick(), total_cpus: total };
+    // reproducers of listed findings (hand-written projects)
+    ctx.run_payloads("cli-fixed", cli::fixed_case);
     let n = ctx.scale(30, 600);
     // development aid: C32_CLI_CASES=n overrides the number of projects
     let n = std::env::var("C32_CLI_CASES").ok().and_then(|s| s.parse().ok()).unwrap_or(n);
@@ -29,7 +31,7 @@ pub fn run(ctx: &Ctx) {
     let threads = (total as usize).min(8);
     ctx.run(
         "cli",
-        CaseCfg::cases(n).choices(6000).threads(threads).shrink_iters(24).timeout_s(1500),
+        CaseCfg::cases(n).choices(6000).threads(threads).shrink_iters(6).timeout_s(2400),
         |d| cli::case(d, &opts),
     );
     ctx.finish(
